@@ -666,8 +666,45 @@ fn main_check(ctx: &Ctx) -> Outcome {
         }
     }
     drop(file);
+    // Files whose writes the OS rejects: a read-only handle and /dev/full.  Whatever the call
+    // returns, it must not report data bytes as accepted that the file did not take.
+    let mut rejecting_runs = 0u64;
+    std::fs::write(&fpath, b"").map_err(|e| e.to_string()).ok();
+    for (label, opener) in [
+        ("read-only handle", Box::new(|| std::fs::File::open(&fpath)) as Box<dyn Fn() -> io::Result<std::fs::File>>),
+        ("/dev/full", Box::new(|| std::fs::OpenOptions::new().write(true).open("/dev/full"))),
+    ] {
+        let Ok(mut f) = opener() else { continue };
+        // sanity: a plain write really fails on this handle (otherwise the case proves nothing)
+        if io::Write::write(&mut f, b"x").is_ok() {
+            continue;
+        }
+        for fgi in 0..17 {
+            for bgi in 0..17 {
+                for (di, (tname, data)) in tokens.iter().enumerate() {
+                    if data.is_empty() {
+                        continue;
+                    }
+                    rejecting_runs += 1;
+                    let mut f = opener().unwrap();
+                    let r = f.write_colored(colour(fgi), colour(bgi), data);
+                    if let Ok(n) = r {
+                        if n > 0 && out.findings.len() < 260 {
+                            out.findings.push(Finding {
+                                system: "write_colored/std::fs::File (writes rejected by the OS)".into(),
+                                clause: "progress-reported-without-acceptance".into(),
+                                case: vec![label.to_string(), format!("fg={}", colour_name(fgi)), format!("bg={}", colour_name(bgi)), format!("data={tname}")],
+                                message: format!("write_colored on a {label} returned Ok({n}) although the file accepts no byte (a plain write on it fails)"),
+                                replay: json!({"kind":"rejecting-file","which":label,"fg":fgi,"bg":bgi,"data":di}),
+                            });
+                        }
+                    }
+                }
+            }
+        }
+    }
     let _ = std::fs::remove_file(&fpath);
-    out.push_part(json!({"system": "real writers", "writers": DIRECT, "runs": direct_runs, "temp_file_dir": dir}));
+    out.push_part(json!({"system": "real writers", "writers": DIRECT, "runs": direct_runs, "temp_file_dir": dir, "rejecting_file_runs": rejecting_runs}));
 
     out.set("evaluations", json!(runs + direct_runs));
     out.set("distinct_nontrivial", json!(hashes.len()));
@@ -733,6 +770,21 @@ fn replay(v: &Value) -> Result<(), String> {
             let _ = std::fs::remove_file(&fpath);
             let (bytes, r) = res?;
             judge(fgi, bgi, &tokens[di].1, &bytes, None, &r, &opts).map(|_| ()).map_err(|(c, m)| format!("{c}: {m}"))
+        }
+        "rejecting-file" => {
+            let dir = tmp_dir();
+            std::fs::create_dir_all(&dir).map_err(|e| e.to_string())?;
+            let fpath = format!("{dir}/c17-replay-ro-{}.bin", std::process::id());
+            std::fs::write(&fpath, b"").map_err(|e| e.to_string())?;
+            let which = v["which"].as_str().unwrap_or("");
+            let f = if which == "/dev/full" { std::fs::OpenOptions::new().write(true).open("/dev/full") } else { std::fs::File::open(&fpath) };
+            let mut f = f.map_err(|e| e.to_string())?;
+            let r = f.write_colored(colour(fgi), colour(bgi), &tokens[di].1);
+            let _ = std::fs::remove_file(&fpath);
+            match r {
+                Ok(n) if n > 0 => Err(format!("write_colored on a {which} returned Ok({n}) although the file accepts no byte")),
+                _ => Ok(()),
+            }
         }
         k => Err(format!("unknown replay kind {k}")),
     }
